@@ -11,8 +11,10 @@ Export ListNotations.
 From Via Require Export Gen_Tables.
 Local Open Scope N_scope.
 
-Definition byte := N.
-Definition str := list byte.
+(* notations, not definitions: `byte`/`str` never appear as constants of their own, so rewriting
+   and unification see plain N / list N *)
+Notation byte := N (only parsing).
+Notation str := (list N) (only parsing).
 
 Definition CR : byte := 13.
 Definition LF : byte := 10.
